@@ -1,0 +1,22 @@
+//go:build verif
+
+package kafkaproducer
+
+// Verification hooks (build tag `verif`): add-only constructors and accessors for the external harness.
+
+import "github.com/confluentinc/confluent-kafka-go/kafka"
+
+// VerifNewKafkaProducer builds a producer node over the given client; no events goroutine is started.
+func VerifNewKafkaProducer(p MessageProducer, topic string) *KafkaProducer {
+	return &KafkaProducer{producer: p, topic: topic, stopChan: make(chan bool)}
+}
+
+// VerifNewErrorProducer builds an error producer node over the given client.
+func VerifNewErrorProducer(p MessageProducer, topic string) *ErrorProducer {
+	return &ErrorProducer{KafkaProducer: KafkaProducer{producer: p, topic: topic, stopChan: make(chan bool)}}
+}
+
+// VerifBuildConfigMap exposes buildConfigMap.
+func (k *KafkaProducer) VerifBuildConfigMap(config map[string]string) (*kafka.ConfigMap, error) {
+	return k.buildConfigMap(config)
+}
